@@ -31,6 +31,8 @@ CASES = {
     "Canonical+DisplacementMove[rebuilt from a restart file: reference energy known, calculator fresh]": dict(driver="quansino.mc.canonical.Canonical", kw={}, move="disp", restarted=True),
     "Isobaric+CellMove[rebuilt from a restart file: reference energy known, calculator fresh]": dict(driver="quansino.mc.isobaric.Isobaric", kw={"temperature": None, "pressure": None}, move="cell", restarted=True),
     "GrandCanonical+DisplacementMove": dict(driver="quansino.mc.gcmc.GrandCanonical", kw={}, move="disp"),
+    # a composite of two displacement moves (any labels, 0 included): a trial that moved atoms reaches its criteria and is saved or reverted
+    "Canonical+CompositeDisplacementMove": dict(driver="quansino.mc.canonical.Canonical", kw={}, move="disp2"),
     "GrandCanonical+ExchangeMove then DisplacementMove": dict(driver="quansino.mc.gcmc.GrandCanonical", kw={}, move="exchange", second="disp"),
 }
 
@@ -53,6 +55,12 @@ def make_sim(I, case, stateful=False, ntrials=2):
     checks = []
     if case["move"] == "disp":
         mv = I.call(I.get_class("quansino.moves.displacement.DisplacementMove"), [labels, OpaqueOp((1, 3))], {})
+    elif case["move"] == "disp2":
+        mv1 = I.call(I.get_class("quansino.moves.displacement.DisplacementMove"), [labels, OpaqueOp((1, 3))], {})
+        mv2 = I.call(I.get_class("quansino.moves.displacement.DisplacementMove"), [labels.like(labels.term), OpaqueOp((1, 3))], {})
+        mv1.attrs["check_move"] = checker(I, checks)
+        mv2.attrs["check_move"] = checker(I, checks)
+        mv = I.binop("+", mv1, mv2)
     elif case["move"] == "cell":
         mv = I.call(I.get_class("quansino.moves.cell.CellMove"), [OpaqueOp((3, 3), post=positive_trial_volume)], {"scale_atoms": I.path.fresh("scale_atoms", "bool")})
     else:
